@@ -142,7 +142,7 @@ def check(ctx):
                    f'L // resolution (voxel smaller than the requested resolution or one voxel lost)')
     # array extent per axis
     stores = [e for e in uniq_events(it, {'store'}, inside) if e['kind'] == 'sub' and e['base'] is not None and e['base'].alloc in ('zeros', 'empty', 'full')]
-    if not stores:
+    if not stores and not uniq_events(it, {'fancy_aug'}, inside):
         ctx.ob('R4', fi, 'count array', None, 'the count array write was not recognised')
     for e in stores:
         base, idx, val = e['base'], e['index'], e['value']
@@ -191,6 +191,9 @@ def check(ctx):
         same = ok and items is not None and all(x.digit is not None for x in items)
         ctx.ob('R4', fi, e['node'], True if same else None,
                'multiplicities of the digitised (x, y, z) triples written at those triples' if same else 'count source not recognised')
+    for e in uniq_events(it, {'fancy_aug'}, inside):
+        ctx.ob('R4', fi, e['node'], False, 'counts are accumulated with a fancy-index augmented assignment, which numpy applies once per distinct index: '
+                                           'two samples of one frame that fall into the same voxel are counted as one (use unique counts / np.add.at)')
     check_peaks(ctx)
     check_voxel_maps(ctx)
 
